@@ -547,6 +547,33 @@ class Gen:
         self.rewrites.append({"fn": fid, "rule": "E22", "from": f".{st[b - 2].text}({src[a0:b0]})", "to": f".{self.LAZY_TO_EAGER[st[b - 2].text]}({btxt})"})
         return True
 
+    def _pure_closure(self, st, cl):
+        """'bool' (comparison / boolean expression), 'path' (a variable or field path), or None"""
+        if cl.arrow is not None or cl.is_block: return None
+        body = st[cl.body_lo:cl.body_hi + 1]
+        if body and all((t.kind == "ident" and t.text not in ("self",)) or (t.kind == "punct" and t.text == ".") or (t.kind == "lit" and t.text.isdigit()) for t in body) \
+                and body[0].kind == "ident" and len(body) >= 3 and not any(b.kind == "ident" and j + 1 < len(body) and body[j + 1].text in ("(", "!", "::") for j, b in enumerate(body)):
+            return "path"
+        return "bool" if self._bool_closure(st, cl) else None
+
+    def _bool_closure(self, st, cl) -> bool:
+        if cl.arrow is not None or cl.is_block: return False
+        body = st[cl.body_lo:cl.body_hi + 1]
+        top = False; depth = 0
+        for j, t in enumerate(body):
+            nx = body[j + 1].text if j + 1 < len(body) else ""
+            if t.kind == "ident":
+                if nx in ("(", "!", "::") or t.text in ("if", "match", "loop", "while", "for", "return", "break", "continue", "unsafe", "move", "as"): return False
+            elif t.kind == "punct":
+                if t.text in ("(",): depth += 1
+                elif t.text in (")",): depth -= 1
+                elif t.text in ("<", "<=", ">", ">=", "==", "!=", "&&", "||"):
+                    if depth == 0: top = True
+                elif t.text not in (".", "*", "&", "!"): return False
+            elif t.kind != "lit":
+                return False
+        return top
+
     def emit_fn(self, d: Directive):
         S = Source.get(d.path)
         st, src = S.st, S.src
@@ -789,6 +816,16 @@ class Gen:
                     idx += 1
             c = clos_spec.get(k)
             body_a, body_b = st[cl.body_lo].start, st[cl.body_hi].end
+            pk_ = self._pure_closure(st, cl) if (c is None and k in new_closures and not lets) else None
+            if pk_:
+                # E23: a new closure whose body is one comparison / boolean expression, or one field path, over variables, fields and
+                # literals gets the contract "the result is that expression" (Verus checks it against the body: it is not an assumption)
+                btxt = src[body_a:body_b]
+                sp.insert(st[cl.params_end].end, ADD("E23", f" -> (res: bool) ensures res == ({btxt})" if pk_ == "bool" else f" -> (res: _) ensures equal(res, {btxt})"))
+                sp.insert(body_a, ADD("E23", "{ "))
+                sp.insert(body_b, ADD("E23", " }"))
+                self.rewrites.append({"fn": fid, "rule": "E23", "closure": k, "contract": f"res == ({btxt})"})
+                new_closures.discard(k)
             if c is not None:
                 lab = c.label
                 labels.append(lab)
@@ -1147,6 +1184,7 @@ class Gen:
             self.rewrites.append({"fn": fid, "rule": "E19", "at": S.line_of(st[let_i].start), "splits": len(hs)})
         assumed = d.opts.get("assume") is not None
         info["assumed"] = assumed
+        if d.opts.get("no_panic") is not None: info["no_panic"] = True
         if assumed:
             # E14: the body of an assumed leaf is not verified; it is dropped so that rustc need not type-check
             # std adapters / helpers that the shim does not model. Closures/loops inside are ignored.
